@@ -7,7 +7,7 @@ from sa.absint import Evaluator, all_effects
 from sa.index import AnalysisError, walk_no_nested
 from sa.teval import Unknown, teval
 from sa.terms import App, Const, Ref, Sym, cases, cat_parts, dict_pairs, subterms
-from . import argname
+from . import argname, generic
 
 EXPLANATION = ("abstract evaluation of the public-key extractor: the two coordinate widths must be one expression that is "
                "independent of the coordinate values and gives 32/48/66 for the three curves; non-interference of the layout "
@@ -24,6 +24,7 @@ WIDTHS = {256: 32, 384: 48, 521: 66}
 
 def run(ctx):
     R = ctx.report
+    generic.cli_converters(ctx, "C15-D2c CLI converters", "suit_generator.cmd_convert", 2)
     repo = ctx.repo
     ctx.use_files("suit_generator/cmd_convert.py", "suit_generator/cmd_keys.py")
     convert_rules(ctx)
